@@ -41,7 +41,8 @@ func run(c *vf.Ctx) {
 	c.Set("rule", "explicit-state DFS over the union alphabet; at every distinct state, for one canonical live element of every kind (v1-address SC incl. its use as the miner fee of a storage proof transaction, v2-address SC, zero-signature SC and SF, in-block ephemeral output, SF, SF at the old developer address incl. the dev-address override, v1 contract, v2 contract) every ordered pair (first use, second use) of applicable uses x every placement {same transaction, same transaction separated by the same kind of use of another element, later transaction of the same block, later transaction of the same block after an in-block revision of the contract, next block with stale proof, next block with proof maintained through the update, next block presenting the contract in its revised form after a block [revision, first use], after a reorg that re-applies the first use}; plus, for every live v1 contract, its resolution (storage proof / natural expiration) followed by a next block whose SUPPLEMENT lists it as expiring again (pre-resolution proof and proof maintained through the resolving block), and the contract listed twice in the supplement of its expiration block; oracle: attack block rejected, control blocks (each use alone) accepted; a case is distinct per (network, height, element kind, first use, second use, placement)")
 	nets := []string{"v1-eras", "mixed", "v2-only"}
 	// (thorough tier: the same three network families at K=2; a fourth (v2-eph5) and a fifth (v1-mid) network did not fit
-	// the 25-minute budget with the present attack menu - measured 1500 s (cap) with four on a loaded machine)
+	// the 25-minute budget with the present attack menu; with ordered pairs per block (K=2) the horizon is 7: H=8 hit the
+	// 1500 s cap at 148 M evaluations)
 	for _, n := range nets {
 		if c.Expired() {
 			break
@@ -49,7 +50,7 @@ func run(c *vf.Ctx) {
 		sp := chain.Spec(n)
 		m := &chain.Model{Name: "union", Spec: sp, Menu: menu,
 			Opt: chain.Options{CheckLedger: true, CheckForest: true, CheckSupply: true},
-			H:   vf.Pick[uint64](c, 8, 8), D: vf.Pick(c, 2, 2), K: vf.Pick(c, 1, 2), R: vf.Pick(c, 1, 1)}
+			H:   vf.Pick[uint64](c, 8, 7), D: vf.Pick(c, 2, 2), K: vf.Pick(c, 1, 2), R: vf.Pick(c, 1, 1)}
 		if n == "v2-eph5" {
 			m.K = 1 // the extra network of the thorough tier: single-action blocks
 			m.H = 6
